@@ -193,6 +193,10 @@ func GenWorld(r *Rng, opts GenOpts, variantCount int) *WorldSpec {
 	// converter interface embedding interfaces that are declared in OTHER files of
 	// the package, each with a method that draws a warning (diagnostics whose
 	// positions lie in several files)
+	// unusual but legal layout inside the interface bodies (blank lines, separator
+	// and block comments between methods, trailing comments); convergen may well
+	// reject such a file - deterministically, which is all the CLI properties need
+	layoutNoise := opts.Rich && r.Chance(1, 6)
 	embedSiblings := (opts.Rich && r.Chance(1, 3) || r.Chance(1, 10)) && !opts.Clean && !opts.NoSiblings
 
 	// --- converter package
@@ -586,14 +590,29 @@ func GenWorld(r *Rng, opts GenOpts, variantCount int) *WorldSpec {
 				if embedSiblings && gi.name == intfs[0].name {
 					b.WriteString("\tEmbA\n\tEmbB\n")
 				}
-				for _, m := range gi.methods {
+				for mi, m := range gi.methods {
+					if layoutNoise && mi > 0 {
+						// unusual but legal layout between methods
+						switch vr.Intn(4) {
+						case 0:
+							b.WriteString("\n")
+						case 1:
+							b.WriteString("\n\n\t// ---- next group ----\n\n")
+						case 2:
+							b.WriteString("\t/* a block comment */\n")
+						}
+					}
 					for _, l := range m.doc {
 						b.WriteString("\t" + l + "\n")
 					}
 					for _, n := range m.notations {
 						b.WriteString("\t// " + n + "\n")
 					}
-					b.WriteString("\t" + m.sig + "\n")
+					if layoutNoise && vr.Chance(1, 3) {
+						b.WriteString("\t" + m.sig + " // trailing comment\n")
+					} else {
+						b.WriteString("\t" + m.sig + "\n")
+					}
 				}
 				b.WriteString("}\n\n")
 				if vr.Chance(1, 4) {
@@ -631,6 +650,9 @@ func GenWorld(r *Rng, opts GenOpts, variantCount int) *WorldSpec {
 			// shape (source by value), so that it shows in the output which one was used
 			w.Files["mod/legacy/hooks/hooks.go"] = strings.ReplaceAll(strings.ReplaceAll(hb.String(), ", rhs *domain.", ", rhs domain."), ", rhs *model.", ", rhs model.")
 		}
+	}
+	if layoutNoise {
+		feat["layout-noise"] = true
 	}
 	if embedSiblings && opts.Reject != "no-interface" {
 		feat["embedded-interfaces-from-sibling-files"] = true
